@@ -7,7 +7,9 @@ URL query handling in pure python mode, aiohttp.FormData), applied to what the c
 String-valued parameters carry a solver-chosen character from the printable ASCII range (which contains Binance's
 client order id alphabet [.A-Za-z0-9:/_-]) at a solver-chosen position class; decimals are symbolic.
 """
+import datetime
 import inspect
+import time as _time
 import types
 from decimal import Decimal
 from urllib.parse import urlencode
@@ -34,8 +36,9 @@ META = dict(
         thorough="adds two special characters per value from [.:/_-@+ %&=?#] (169 pairs)"),
     stubs=["aiohttp.ClientSession -> recording stub (session= parameter)", "hmac.new in binance.helpers and "
            "bitstamp.helpers -> recorder of (key, message); HMAC-SHA256 itself is trusted",
-           "time.time in client modules -> scenario clock", "the clients' optional limiter (tb=) -> None or an object "
-           "whose consume() returns 5 s / 0.25 s; asyncio.sleep in the client modules advances the scenario clock", "uuid.uuid4 deterministic and distinct",
+           "the names `time` and `datetime` in the client modules -> proxies whose time()/now()/utcnow() read the scenario "
+           "clock", "the process's local time zone is a solver choice (UTC0 / ART3; thorough adds JST-9)", "the clients' optional limiter (tb=) -> None or an object "
+           "whose consume() returns 5 s (thorough: also 0.25 s); asyncio.sleep in the client modules advances the scenario clock", "uuid.uuid4 deterministic and distinct",
            "wire = yarl.URL(url).update_query(params).raw_query_string and aiohttp.FormData(data)() body"],
     assumptions=["aiohttp serialises `params` through yarl and `data` through FormData exactly as the installed versions "
                  "do (that code is executed, not modelled)", "the character-level claim is for one free ASCII character "
@@ -138,10 +141,60 @@ def _strings(ctx, tier):
     return gen
 
 
-def _throttle(ctx, module, clk):
+class _TimeProxy:
+    """the name `time` inside a client module: time() reads the scenario clock, everything else is the real module"""
+    def __init__(self, clk):
+        self._clk = clk
+
+    def time(self):
+        return self._clk[0]
+
+    def time_ns(self):
+        return int(round(self._clk[0] * 10 ** 9))
+
+    def __getattr__(self, name):
+        return getattr(_time, name)
+
+
+def _datetime_proxy(clk):
+    """the name `datetime` inside a client module: now()/utcnow() read the scenario clock (through the real
+    fromtimestamp, so the process's local zone applies exactly as it would to the real clock)"""
+    class _DT(datetime.datetime):
+        @classmethod
+        def now(cls, tz=None):
+            return datetime.datetime.fromtimestamp(clk[0], tz)
+
+        @classmethod
+        def utcnow(cls):
+            return datetime.datetime.utcfromtimestamp(clk[0])
+    ns = types.SimpleNamespace(**{k: getattr(datetime, k) for k in dir(datetime) if not k.startswith("__")})
+    ns.datetime = _DT
+    return ns
+
+
+def _clock_env(ctx, modules, clk, tier="quick"):
+    """Every clock source visible in the client modules reads the scenario clock; the process's local time zone is a
+    solver choice (a timestamp must not depend on it)."""
+    from .c17_wire import _local_zone
+    _local_zone(ctx, None if tier == "thorough" else ["UTC0", "ART3"])
+    found = False
+    for m in modules:
+        if isinstance(getattr(m, "time", None), types.ModuleType):
+            ctx.patch(m, "time", _TimeProxy(clk), both_modes=True)
+            found = True
+        if isinstance(getattr(m, "datetime", None), types.ModuleType):
+            ctx.patch(m, "datetime", _datetime_proxy(clk), both_modes=True)
+            found = True
+    if not found:
+        from symx.core import HarnessError
+        raise HarnessError("no clock source (time / datetime module) found in %s" % [m.__name__ for m in modules])
+
+
+def _throttle(ctx, module, clk, tier="quick"):
     """The clients' optional request limiter (`tb=`): None, or a limiter that makes every request wait 5 s / 0.25 s.
     asyncio.sleep inside the client module advances the scenario clock instead of suspending."""
-    wait = [None, 5.0, 0.25][ctx.choice("limiter_wait", 3)]
+    waits = [None, 5.0, 0.25] if tier == "thorough" else [None, 5.0]
+    wait = waits[ctx.choice("limiter_wait", len(waits))]
 
     async def sleep(seconds):
         clk[0] = clk[0] + seconds
@@ -155,9 +208,9 @@ def binance_endpoint(ctx, account="spot_account", method="query_order", tier="qu
     rec = _HmacRecorder()
     ctx.patch(bn_helpers, "hmac", rec, both_modes=True)
     clk = [CLOCKS[ctx.choice("clock", len(CLOCKS))]]
-    ctx.patch(bn_base, "time", types.SimpleNamespace(time=lambda: clk[0]), both_modes=True)
+    _clock_env(ctx, [bn_base, bn_helpers], clk, tier)
     sess = StubSession()
-    api = BnAPIClient(api_key="the-key", api_secret="the-secret", session=sess, tb=_throttle(ctx, bn_base, clk))
+    api = BnAPIClient(api_key="the-key", api_secret="the-secret", session=sess, tb=_throttle(ctx, bn_base, clk, tier))
     acc = getattr(api, account)
     fn = getattr(acc, method)
     gen = _strings(ctx, tier)
@@ -175,8 +228,6 @@ def binance_endpoint(ctx, account="spot_account", method="query_order", tier="qu
     if not signed:
         # user data stream endpoints are key-only
         ctx.prove(not rec.calls, "C16 binance: unsigned endpoints do not sign")
-        for lab in META["required_covers"]:
-            ctx.cover(lab)
         return
     ctx.cover("a signed binance request was checked")
     parts = raw_q.split("&")
@@ -193,20 +244,17 @@ def binance_endpoint(ctx, account="spot_account", method="query_order", tier="qu
     ts = [p for p in parts if p.startswith("timestamp=")]
     ctx.prove(len(ts) == 1 and ts[0] == "timestamp=%d" % int(round(clock * 1000)),
               "C16 binance: the timestamp is the current time in milliseconds", info=(ts, clock))
-    for lab in ("a signed bitstamp request was checked", "two nonces were compared"):
-        ctx.cover(lab)
-    if tier != "x":
-        ctx.cover("a URL-special character was sent") if False else None
+
 
 
 def bitstamp_endpoint(ctx, method="get_order_status", tier="quick"):
     rec = _HmacRecorder()
     ctx.patch(bt_helpers, "hmac", rec, both_modes=True)
     clk = [CLOCKS[ctx.choice("clock", len(CLOCKS))]]
-    ctx.patch(bt_helpers, "time", types.SimpleNamespace(time=lambda: clk[0]), both_modes=True)
+    _clock_env(ctx, [bt_helpers, bt_client], clk, tier)
     sess = StubSession()
     api = bt_client.APIClient(api_key="the-key", api_secret="the-secret", session=sess,
-                              tb=_throttle(ctx, bt_client, clk))
+                              tb=_throttle(ctx, bt_client, clk, tier))
     fn = getattr(api, method)
     gen = _strings(ctx, tier)
     dec = lambda name: ctx.dec("dec_" + name, 4, lo=1, hi=10 ** 9)     # noqa: E731
@@ -249,7 +297,6 @@ def bitstamp_endpoint(ctx, method="get_order_status", tier="quick"):
     if len(nonces) == 2:
         ctx.cover("two nonces were compared")
         ctx.prove(nonces[0] != nonces[1] and all(nonces), "C16 bitstamp: nonces never repeat")
-    ctx.cover("a signed binance request was checked")
 
 
 def _binance_methods():
